@@ -369,8 +369,8 @@ def check_program(ctx, prog, record=True):
 
 def plan(tier, seed):
     if tier == "quick":
-        return [{"task": "hyp", "examples": 110} for _ in range(16)]
-    return [{"task": "hyp", "examples": 2500} for _ in range(16)]
+        return [{"task": "hyp", "examples": 40} for _ in range(16)]
+    return [{"task": "hyp", "examples": 600} for _ in range(16)]
 
 
 def run_task(ctx, task, **kw):
